@@ -285,9 +285,11 @@ class RunPlan:
         digests = set()
         counters, probes, faults = {}, {}, {}
         steps = 0
+        states = set()
         for r in results:
             if not r or "harness_error" in r:
                 continue
+            states.update(r.get("state_hashes") or ())
             if self.nontrivial(r):
                 digests.add(r.get("digest"))
             steps += r.get("n_ops", 0) + r.get("sched_steps", 0)
@@ -315,6 +317,9 @@ class RunPlan:
                 "samples": samples,
                 "runs_per_hour": int(len(results) / wall * 3600) if wall > 0 else 0,
                 "simulated_steps": steps,
+                "distinct_states_reached": len(states),
+                "distinct_states_measure": "distinct unit normal forms (prefix, base-unit exponents) produced by operations across all runs (CRC32 of the canonical string); World T reports distinct_interleavings instead",
+                "seeds": {"VERIF_SEED": seed, "run_seed_derivation": "sha256(VERIF_SEED, property, run index) >> 1", "runs": len(results)},
                 "simulated_time": "not applicable: the library never reads a clock; steps (operations + scheduler decisions) are reported instead",
                 "boot_configs": [json.loads(b) for b in boots],
                 "templates_started": templates,
